@@ -224,5 +224,29 @@ for kind in ('exp', 'Abs'):
     translator_contract(kind, SymNode(kind, [opaque(0)]))
 translator_contract('log', SymNode('log', [opaque(0)]), domain='sem_of(tree.args[0], %s) > 0')           # finite domain of the formula
 translator_contract('Heaviside', SymNode('Heaviside', [opaque(0)]), domain='sem_of(tree.args[0], %s) != 0')  # arguments kept away from 0
+
+
+# two-level shapes: every node kind with every node kind as a child in every position (grandchildren opaque). The one-level induction
+# above is sound only for a translator that never looks at the kind of a child; these shapes decide translators that look one level down
+# (seed C02-c: a power of a power collapsed into one power)
+def _child(kind, base):
+    if kind == 'Number':
+        return SymNode('Number', value=tm.var('childnum%d' % base, REAL))
+    if kind.startswith('Symbol:'):
+        return SymNode('Symbol', name=kind.split(':')[1])
+    n = 1 if kind in ('exp', 'log', 'Abs', 'Heaviside') else 2
+    return SymNode(kind, [opaque(base + i) for i in range(n)])
+
+
+CHILD_KINDS = ('Add', 'Mul', 'Pow', 'Max', 'Min', 'exp', 'Abs', 'Symbol:X', 'Symbol:k', 'Symbol:volume', 'Number')
+for parent in ('Add', 'Mul', 'Pow', 'Max', 'Min'):
+    for pos in (0, 1):
+        for ck in CHILD_KINDS:
+            kids = [opaque(0), opaque(1)]
+            kids[pos] = _child(ck, 10)
+            translator_contract('%s[%d]=%s' % (parent, pos, ck), SymNode(parent, kids))
+for parent in ('exp', 'Abs'):
+    for ck in CHILD_KINDS:
+        translator_contract('%s[0]=%s' % (parent, ck), SymNode(parent, [_child(ck, 10)]))
 for kind in ('sin', 'Derivative', 'Piecewise', 'ImaginaryUnit'):
     translator_contract('unsupported:' + kind, SymNode(kind, [opaque(0)]), expect_raise='SyntaxError')
